@@ -893,7 +893,8 @@ def work_tabloop(item, col):
     algo, script, seed = item["algo"], item["script"], item["seed"]
     T = len(script)
     lrs = (0.5,) if algo == "train_monte_carlo" else (0.5, 1.0)  # Monte Carlo has no learning rate
-    for S, lr, rs in itertools.product((12, 3), lrs, range(item["nseeds"])):
+    # S = 1: a single state, so every step is a self-transition (the successor is the state just updated)
+    for S, lr, rs in itertools.product((12, 3, 1), lrs, range(item["nseeds"])):
         run_seed = seed + rs
         cfg = dict(algo=algo, script=script, n_states=S, learning_rate=lr, seed=run_seed)
         # epsilon = 0: every executed action maximises the table held before that step
